@@ -194,6 +194,18 @@ func TestCheck(t *testing.T) {
 			sched.Explore(t, idxsets.ConcurrentScenario("C14|index|", s, rev, assign, 2, 2, want), res, end)
 		}
 	}
+	// index queried while it is fed: a feeder in dependency order, one reader taking two snapshots
+	// (thorough: also two readers) under the read lock
+	for _, s := range idxsets.Sets() {
+		if len(s.Canon) > 4 || len(s.Absent) > 0 {
+			continue
+		}
+		prefix := idxsets.PrefixObservations(s)
+		sched.Explore(t, idxsets.QueriedScenario("C14|index-queried|", s, 1, 2, 2, prefix), res, end)
+		if vk.Thorough() {
+			sched.Explore(t, idxsets.QueriedScenario("C14|index-queried|", s, 2, 1, 2, prefix), res, end)
+		}
+	}
 	compact(res)
 	res.Write()
 }
